@@ -36,6 +36,10 @@ var (
 	RotationArrive atomic.Int64 // times the rotation loop reached its head
 	ImpactArrive   atomic.Int64
 	RotationsDone  atomic.Int64 // migrate.done events
+	rotationPasses atomic.Int64 // tokens consumed
+	impactPasses   atomic.Int64
+	rotationPassAt atomic.Int64 // arrival number of the visit that consumed the last token
+	impactPassAt   atomic.Int64
 	closingMu      sync.Mutex
 	closing        = map[*server.GCAServer]bool{}
 	gatesOnce      sync.Once
@@ -47,10 +51,12 @@ func isClosing(s *server.GCAServer) bool {
 	return closing[s]
 }
 
-func gate(s *server.GCAServer, gated *atomic.Bool, tokens *atomic.Int64) {
+func gate(s *server.GCAServer, gated *atomic.Bool, tokens, passes, passAt *atomic.Int64, visit int64) {
 	for gated.Load() && !isClosing(s) {
 		if t := tokens.Load(); t > 0 {
 			if tokens.CompareAndSwap(t, t-1) {
+				passAt.Store(visit)
+				passes.Add(1)
 				return
 			}
 			continue
@@ -65,12 +71,10 @@ func gate(s *server.GCAServer, gated *atomic.Bool, tokens *atomic.Int64) {
 func InstallGates() {
 	gatesOnce.Do(func() {
 		server.VerifSetHook("migrate.loop", func(s *server.GCAServer) {
-			RotationArrive.Add(1)
-			gate(s, &rotationGated, &rotationTokens)
+			gate(s, &rotationGated, &rotationTokens, &rotationPasses, &rotationPassAt, RotationArrive.Add(1))
 		})
 		server.VerifSetHook("wt.loop", func(s *server.GCAServer) {
-			ImpactArrive.Add(1)
-			gate(s, &impactGated, &impactTokens)
+			gate(s, &impactGated, &impactTokens, &impactPasses, &impactPassAt, ImpactArrive.Add(1))
 		})
 		server.VerifSetHook("migrate.done", func(s *server.GCAServer) {
 			RotationsDone.Add(1)
@@ -81,28 +85,44 @@ func InstallGates() {
 func GateRotation(on bool) { InstallGates(); rotationGated.Store(on); rotationTokens.Store(0) }
 func GateImpact(on bool)   { InstallGates(); impactGated.Store(on); impactTokens.Store(0) }
 
+// step hands one token to a gated loop, waits until a visit has consumed it and
+// then until the loop is back at its head (the iteration is over). It returns
+// false if that did not happen within a generous wall-clock bound.
+func step(tokens, passes, passAt, arrive *atomic.Int64) bool {
+	p := passes.Load()
+	tokens.Add(1)
+	deadline := time.Now().Add(40 * time.Second)
+	for passes.Load() == p {
+		if time.Now().After(deadline) {
+			return false
+		}
+		time.Sleep(200 * time.Microsecond)
+	}
+	visit := passAt.Load()
+	for arrive.Load() <= visit {
+		if time.Now().After(deadline) {
+			return false
+		}
+		time.Sleep(200 * time.Microsecond)
+	}
+	return true
+}
+
 // StepRotation lets the gated rotation loop run exactly one iteration and
 // waits until it is back at its head. Returns the number of rotations the
-// iteration performed (0 or 1).
+// iteration performed (0 or 1), or -1 if the loop did not come round in time
+// (wall-clock watchdog: treat as inconclusive).
 func StepRotation() int {
 	before := RotationsDone.Load()
-	arr := RotationArrive.Load()
-	rotationTokens.Add(1)
-	deadline := time.Now().Add(20 * time.Second)
-	for RotationArrive.Load() == arr && time.Now().Before(deadline) {
-		time.Sleep(time.Millisecond)
+	if !step(&rotationTokens, &rotationPasses, &rotationPassAt, &RotationArrive) {
+		return -1
 	}
 	return int(RotationsDone.Load() - before)
 }
 
-// StepImpact lets the impact job run one round.
-func StepImpact() {
-	arr := ImpactArrive.Load()
-	impactTokens.Add(1)
-	deadline := time.Now().Add(20 * time.Second)
-	for ImpactArrive.Load() == arr && time.Now().Before(deadline) {
-		time.Sleep(time.Millisecond)
-	}
+// StepImpact lets the impact job run one round and waits until it is over.
+func StepImpact() bool {
+	return step(&impactTokens, &impactPasses, &impactPassAt, &ImpactArrive)
 }
 
 // ---------------------------------------------------------------- server environment
